@@ -777,3 +777,49 @@ def atomic_floors(ctx, rid, owners, floor=1, files=None):
     for u in sorted(unclassified):
         ctx.note("atomic field without a floor (listed, not judged): " + u)
     return n
+
+
+# ------------------------------------------------------- handle lifetime
+def handle_deref_lifetime(ctx, rid, classes, floor=1):
+    """a reference obtained by dereferencing a lock-carrying handle (*h / h->) must not be used after the handle
+    released its lock (temporary destroyed at the end of the full expression, scope end, unlock(), move-from)"""
+    from .engine import handle_class
+    ctx.rule(rid, "references into the payload obtained through a handle are only used while that handle still holds "
+             "its lock", floor=floor)
+    fb, eng = ctx.fb, ctx.eng
+    n = 0
+    for cls in classes:
+        for f, top in class_functions(fb, cls):
+            la = locks_of(eng, fb, f)
+            # every dereference of a handle-typed expression
+            for st in f.stmts.values():
+                if not (st["k"] == "CXXOperatorCallExpr" and st.get("op") in ("*", "->") and st["args"]):
+                    continue
+                h = f.s(st["args"][0])
+                if h is None or not handle_class(h.get("t", "")):
+                    continue
+                n += 1
+                key = la.key_of_expr(h)
+                pos = f.pos_of(st)
+                v = la.state_at(pos).get(key) if pos else None
+                ok = v is not None and v.st in (HELD, MAYBE)
+                ctx.ob(rid, ok, f.loc(st), "%s dereferences a handle that holds its lock" % top.name,
+                       "" if ok else "the handle is not known to hold a lock here", fn=top.label, inst=f.qname)
+                # is the result bound to a reference that lives on?
+                acc, user = eng.classify_access(f, st)
+                if acc in ("bind", "bind-const") and user is not None and user["k"] == "DeclStmt":
+                    for d in user["decls"]:
+                        if not d.get("ref"):
+                            continue
+                        for u in f.stmts.values():
+                            if u["k"] == "DeclRefExpr" and u["d"]["name"] == d["name"] and u["d"].get("k") == "local":
+                                up = f.pos_of(u)
+                                vv = la.state_at(up).get(key) if up else None
+                                oku = vv is not None and vv.st == HELD
+                                ctx.ob(rid, oku, f.loc(u), "reference '%s' into the payload is used while the handle it came from "
+                                       "still holds the lock" % d["name"], "" if oku else
+                                       "the handle (a temporary or an already released object) no longer protects the object: "
+                                       "the access runs unlocked", fn=top.label, inst=f.qname)
+    if n == 0:
+        ctx.note("%s: no handle dereference inside the analysed classes" % rid)
+    return n
